@@ -350,6 +350,10 @@ def run_check(cid, tier, seed):
             by_backend[ob.backend] = by_backend.get(ob.backend, 0) + 1
     slow = sorted(obs, key=lambda o: -o.time)[:5]
     assumptions = set(P.get('assumptions', []))
+    assumptions.add('sidecar types are Python\'s built-in kinds: a parameter typed int / bool is read as a built-in int / bool '
+                    '(isinstance, `is True`, int() on it are decided accordingly); numpy scalars, Fractions, 1 / numpy.True_ '
+                    'used as flags, and user subclasses overriding public methods, __eq__, __bool__ or __iter__ are exercised '
+                    'by the native layer only (bounded, small-scope histories)')
     for rep in reports:
         assumptions |= set(rep.assumptions)
     for key in plan:
